@@ -92,8 +92,9 @@ def run_chunk(chunk, tier, seed):
             # the derivative is not)
             at_sensor = G.compose(kind, I.comps(I.mk_pose(kind, p1)), I.comps(I.mk_pose(kind, off)))[: len(pts[0])]
             for l in pts + [at_sensor]:
-                for z in zs:
-                    _do(acc, {"edge": "lm", "kind": kind, "p1": p1, "off": off, "l": l, "z": z})
+                for zi, z in enumerate(zs):
+                    # offset ids are export-only: the default None and an explicit 0 (the id every EDGE_SE2_XY edge gets) alternate
+                    _do(acc, {"edge": "lm", "kind": kind, "p1": p1, "off": off, "l": l, "z": z, "oid": (0 if zi == 0 else None)})
     return acc
 
 
@@ -152,7 +153,7 @@ def build_edge(case):
     w1 = I.Vertex(11, I.mk_pose(kind, G.identity(kind)))
     w2 = I.Vertex(12, I.mk_pose(pk, [0.5, -0.25, 0.75][:n]))
     I.EdgeLandmark([11, 12], np.eye(n), I.mk_pose(pk, [0.0] * n), offset=I.mk_pose(kind, G.identity(kind)), offset_id=0, vertices=[w1, w2]).calc_jacobians()
-    return I.EdgeLandmark([1, 2], np.eye(n), I.mk_pose(pk, case["z"]), offset=I.mk_pose(kind, case["off"]), offset_id=0, vertices=[v1, v2]), n
+    return I.EdgeLandmark([1, 2], np.eye(n), I.mk_pose(pk, case["z"]), offset=I.mk_pose(kind, case["off"]), offset_id=case.get("oid"), vertices=[v1, v2]), n
 
 
 def _eval(case):
